@@ -117,3 +117,78 @@ func TestWriteLeavesCallersBatchUntouched(t *testing.T) {
 	close(stop)
 	<-done
 }
+
+// obligation leveldb.(*DB).has:assert(C20:internal-key-is-not-built-in-the-callers-buffer ...)
+// The caller keeps several keys packed back to back in one buffer and probes
+// the DB with sub-slices of it. Has must not write to the caller's memory,
+// neither inside nor past the key it was handed.
+func TestHasLeavesTheCallersKeyBufferAlone(t *testing.T) {
+	db, err := leveldb.Open(storage.NewMemStorage(), nil)
+	if err != nil {
+		t.Fatal(err)
+	}
+	defer db.Close()
+
+	for _, k := range []string{"alpha", "bravo", "charlie"} {
+		if err := db.Put([]byte(k), []byte("v-"+k), nil); err != nil {
+			t.Fatal(err)
+		}
+	}
+
+	// One buffer holding "alpha" "bravo" "charlie" one after the other.
+	packed := []byte("alphabravocharlie-------")
+	orig := append([]byte(nil), packed...)
+	keys := [][]byte{packed[0:5], packed[5:10], packed[10:17]}
+
+	check := func(stage string) {
+		if !bytes.Equal(packed, orig) {
+			t.Fatalf("%s: caller's buffer was modified:\n got  %q\n want %q", stage, packed, orig)
+		}
+	}
+
+	// Key living in the write buffer (memdb).
+	ok, err := db.Has(keys[0], nil)
+	if err != nil || !ok {
+		t.Fatalf("Has(alpha) = %v, %v", ok, err)
+	}
+	check("after Has(alpha)")
+
+	// The neighbouring keys must still be what the caller put there.
+	for i, want := range []string{"alpha", "bravo", "charlie"} {
+		ok, err := db.Has(keys[i], nil)
+		if err != nil {
+			t.Fatal(err)
+		}
+		if !ok {
+			t.Fatalf("Has(%q) (caller wrote %q) = false", keys[i], want)
+		}
+		check("after Has(" + want + ")")
+	}
+
+	// Same through a snapshot and a transaction (they share the lookup path).
+	snap, err := db.GetSnapshot()
+	if err != nil {
+		t.Fatal(err)
+	}
+	if _, err := snap.Has(keys[1], nil); err != nil {
+		t.Fatal(err)
+	}
+	snap.Release()
+	check("after Snapshot.Has(bravo)")
+
+	tr, err := db.OpenTransaction()
+	if err != nil {
+		t.Fatal(err)
+	}
+	if _, err := tr.Has(keys[0], nil); err != nil {
+		t.Fatal(err)
+	}
+	tr.Discard()
+	check("after Transaction.Has(alpha)")
+
+	// A key with no spare capacity is never affected.
+	tight := []byte("bravo")[:5:5]
+	if ok, err := db.Has(tight, nil); err != nil || !ok {
+		t.Fatalf("Has(tight bravo) = %v, %v", ok, err)
+	}
+}
